@@ -18,6 +18,8 @@ func main() {
 	switch os.Args[1] {
 	case "C02":
 		runC02(ev.Parse("model_checking"))
+	case "C03":
+		runC03(ev.Parse("model_checking"))
 	default:
 		fmt.Println("kvmc: unknown property", os.Args[1])
 		os.Exit(2)
